@@ -42,9 +42,10 @@ type impWant struct {
 var impWants = []impWant{
 	{dir: "sequtil", pkg: "sequtil",
 		funcs: []string{"Ntoi", "Iton", "complementByte", "ReverseComplement", "DNATo2Bit", "DNAFrom2Bit",
-			"CanonicalSubsequences", "Translate", "TranslateReadingFrames"},
+			"CanonicalSubsequences", "Translate", "TranslateReadingFrames", "ReverseComplementString", "AminoName"},
 		globals: map[string]string{"ntoi": "g_sequtil_ntoi", "complementBytes": "g_sequtil_complementBytes",
-			"dnaFrom2bit": "g_sequtil_dnaFrom2bit", "codonToAmino": "g_sequtil_codonToAmino"}},
+			"dnaFrom2bit": "g_sequtil_dnaFrom2bit", "codonToAmino": "g_sequtil_codonToAmino",
+			"aminoToName": "g_sequtil_aminoToName"}},
 	{dir: "regions", pkg: "regions",
 		funcs: []string{"eventLess", "keys", "cp", "NewIndex", "Index.At"}},
 	{dir: "align", pkg: "align",
@@ -156,7 +157,17 @@ func isSetMap(ty types.Type) bool {
 
 func isError(ty types.Type) bool { return ty != nil && ty.String() == "error" }
 
+func isBuilder(ty types.Type) bool {
+	if p, ok := ty.(*types.Pointer); ok {
+		ty = p.Elem()
+	}
+	return ty.String() == "strings.Builder"
+}
+
 func (t *impTr) ty(ty types.Type) string {
+	if isBuilder(ty) {
+		return "(list N)" // the bytes written so far
+	}
 	if isError(ty) {
 		if t.errZ {
 			return "Z"
@@ -467,6 +478,15 @@ func (t *impTr) ex(e ast.Expr, pre *[]opener) string {
 		xt := t.typeOf(e.X)
 		switch u := xt.Underlying().(type) {
 		case *types.Slice, *types.Array, *types.Basic:
+			if arr, ok := u.(*types.Array); ok && arr.Len() == 2 {
+				if iv, ok := t.info.Types[e.Index]; ok && iv.Value != nil {
+					x := t.ex(e.X, pre)
+					if iv.Value.ExactString() == "0" {
+						return "(fst " + x + ")"
+					}
+					return "(snd " + x + ")"
+				}
+			}
 			_ = u
 			x := t.ex(e.X, pre)
 			i := t.asZ(e.Index, pre)
@@ -502,6 +522,9 @@ func (t *impTr) ex(e ast.Expr, pre *[]opener) string {
 		return v
 	case *ast.CompositeLit:
 		ty := t.typeOf(e)
+		if isBuilder(ty) {
+			return "[]"
+		}
 		switch u := ty.Underlying().(type) {
 		case *types.Struct:
 			if u.NumFields() == 0 {
@@ -859,6 +882,17 @@ func (t *impTr) call(e *ast.CallExpr, pre *[]opener) string {
 			return v
 		}
 	}
+	if f, ok := obj.(*types.Func); ok {
+		if sig := f.Type().(*types.Signature); sig.Recv() != nil && isBuilder(sig.Recv().Type()) {
+			sel := e.Fun.(*ast.SelectorExpr)
+			switch f.Name() {
+			case "String":
+				return t.ex(sel.X, pre)
+			case "Len":
+				return "(go_len " + t.ex(sel.X, pre) + ")"
+			}
+		}
+	}
 	if obj != nil && t.stream {
 		if f, ok := obj.(*types.Func); ok {
 			if sig := f.Type().(*types.Signature); sig.Recv() != nil && strings.HasSuffix(sig.Recv().Type().String(), "bufio.Scanner") {
@@ -1003,6 +1037,13 @@ func (t *impTr) assigned(n ast.Node) ([]types.Object, int) {
 				}
 				if _, ok := o.(*types.Builtin); ok && (o.Name() == "copy" || o.Name() == "delete") {
 					add(s.Args[0])
+				}
+				if f, ok := o.(*types.Func); ok {
+					if sig := f.Type().(*types.Signature); sig.Recv() != nil && isBuilder(sig.Recv().Type()) && strings.HasPrefix(f.Name(), "Write") {
+						if sel, ok := s.Fun.(*ast.SelectorExpr); ok {
+							add(sel.X)
+						}
+					}
 				}
 			}
 		case *ast.FuncLit:
@@ -1211,6 +1252,26 @@ func (t *impTr) block(list []ast.Stmt, k string, lc *loopCtx) string {
 				}
 			}
 		}
+		if f, ok := t.calleeObj(call.Fun).(*types.Func); ok {
+			if sig := f.Type().(*types.Signature); sig.Recv() != nil && isBuilder(sig.Recv().Type()) {
+				sel := call.Fun.(*ast.SelectorExpr)
+				switch f.Name() {
+				case "Grow":
+					t.ex(call.Args[0], &pre)
+					return wrapOpeners(pre, rest())
+				case "WriteByte":
+					b := t.ex(sel.X, &pre)
+					x := t.ex(call.Args[0], &pre)
+					t.store(sel.X, fmt.Sprintf("(%s ++ [%s])", b, x), &pre)
+					return wrapOpeners(pre, rest())
+				case "WriteString", "Write":
+					b := t.ex(sel.X, &pre)
+					x := t.ex(call.Args[0], &pre)
+					t.store(sel.X, fmt.Sprintf("(%s ++ %s)", b, x), &pre)
+					return wrapOpeners(pre, rest())
+				}
+			}
+		}
 		if o := t.calleeObj(call.Fun); o != nil && t.stream && isBufioMethod(o) && o.Name() == "UnreadByte" {
 			pre = append(pre, opener{"let rd__ := go_unreadbyte rd__ in ", ""})
 			return wrapOpeners(pre, rest())
@@ -1393,6 +1454,16 @@ func (t *impTr) assign(s *ast.AssignStmt, pre *[]opener) {
 		// v, ok := m[[2]byte{a, b}]
 		if ie, ok := s.Rhs[0].(*ast.IndexExpr); ok {
 			if mt, ok := t.typeOf(ie.X).Underlying().(*types.Map); ok {
+				if id, isId := ie.X.(*ast.Ident); isId {
+					if g, isGlobal := t.globals[id.Name]; isGlobal {
+						key := t.ex(ie.Index, pre)
+						v, okv := t.fresh(), t.fresh()
+						*pre = append(*pre, opener{fmt.Sprintf("let '(%s, %s) := match %s %s with Some v__ => (v__, true) | None => (%s, false) end in ", v, okv, g, key, t.zero(mt.Elem())), ""})
+						t.store(s.Lhs[0], v, pre)
+						t.store(s.Lhs[1], okv, pre)
+						return
+					}
+				}
 				cl, ok := ie.Index.(*ast.CompositeLit)
 				if !ok || len(cl.Elts) != 2 {
 					t.fail(s, "comma-ok read with an unsupported key")
